@@ -295,6 +295,17 @@ func registerHarnessAPI() {
 		in.natives["now"] = value(args[0].(uint64))
 		return nil
 	}
+	ext[hname("vAdvanceClock")] = func(in *Interp, fr *frame, args []value) value {
+		n := uint64(asInt(args[0]))
+		switch now := in.nowValue().(type) {
+		case uint64:
+			in.natives["now"] = value(now + n)
+		case *Term:
+			in.natives["now"] = value(norm(in.ts.Bin(OpAdd, now, in.ts.Const(64, n))))
+		}
+		in.stubs["clock advanced by the harness connection"]++
+		return nil
+	}
 	ext[hname("vConcretize")] = func(in *Interp, fr *frame, args []value) value {
 		switch v := args[0].(type) {
 		case *Term:
